@@ -28,8 +28,9 @@
          duplicate-free, the inverted one (D9) returns nothing: `example`.
   Label: partial — the numeric lower bounds / exactness are hypotheses (`WorldOK`, and `WorldApprox`
   for targets that USE MaxError, i.e. shape-index targets).  For such targets the MaxResults = 1 case
-  is proved (`single_*_approx`); MaxResults > 1 with an approximate target is covered only by the
-  duplicate-filter theorem (statement kept as `ApproxMultiSpec`) and by the correspondence check.
+  is proved here (`single_*_approx`); MaxResults ≠ 1 with an approximate target (`ApproxMultiSpec`,
+  top-k / rank semantics), the furthest-edge instance written out, and the threshold calls for
+  approximate targets are proved in `Properties/C08_Approx.lean`.
 -/
 import S2Proofs.EdgeQuery.Post
 import S2Proofs.EdgeQuery.Cover
@@ -269,10 +270,10 @@ theorem single_within_maxError_approx (O : DistOrder I) (S : SubLaws I o.maxErro
 
 end Single
 
-/-- NOT PROVED (full statement kept): MaxResults > 1 with a target that uses MaxError — every edge
-    within the limit is reported exactly once with a distance within MaxError of its true distance.
-    (Only the "exactly once" half is proved: `duplicate_filter_nodup`; the rest is exercised by the
-    correspondence check, clause `reported-distance-not-within-MaxError-of-edge` / `count`.) -/
+/-- MaxResults > 1 with a target that uses MaxError — every edge within the limit is reported
+    exactly once with a distance within MaxError of its true distance.  PROVED (for every distance
+    type with the order laws) in `Properties/C08_Approx.lean`: `approxMultiSpec_proved`; the full
+    documented semantics (any MaxResults ≠ 1, interiors, rank guarantee) is `approx_multi_topk`. -/
 def ApproxMultiSpec (I : DistI D) (o : Opts D) (w : World D) (d : EdgeKey → D) : Prop :=
   WorldApprox I o.maxError w d → o.maxResults > 1 → o.targetUsesMaxError = true → o.maxError ≠ I.zero →
   o.includeInteriors = false → o.invertedFilter = false → o.maxResults ≥ w.allEdges.length →
